@@ -115,6 +115,22 @@ POOLS = {
                                            ['ValueError', "'True'", '1', 'int'] + FALSY, []),
 }
 OPTIONS = sorted(POOLS)
+# deprecated spellings, documented to be passed on as the option they were renamed to (None = not passed)
+ALIAS_OF = {'claw_decoration_position_funcs': 'claw_decor_place_func', 'claw_decoration_position_types': 'claw_decor_place_type',
+            'is_check_pep557': 'is_pep557_fields'}
+ALIASES_OF = {new: old for old, new in ALIAS_OF.items()}
+
+
+def _canon(kw):
+    """Keyword list with deprecated option names replaced by the names they were renamed to (the model speaks new names only)."""
+    return [[ALIAS_OF.get(o, o), v] for o, v in kw]
+
+
+def _pool(opt):
+    ok, bad, either = POOLS[ALIAS_OF.get(opt, opt)]
+    if opt in ALIAS_OF:   # None means "not passed" for a deprecated spelling
+        ok, bad, either = ([t for t in pool if t != 'None'] for pool in (ok, bad, either))
+    return ok, bad, either
 DEFAULT_TOKEN = {
     'claw_decor_place_func': 'P.LBDH', 'claw_decor_place_type': 'P.LAST', 'claw_is_pep526': 'True',
     'claw_skip_package_names': '()', 'hint_overrides': 'FD()', 'is_debug': 'False',
@@ -134,7 +150,9 @@ def _kw_strategy(draw, max_opts):
     bad_at = set(draw(st.permutations(range(len(opts))))[:nbad]) if nbad else set()
     kw = []
     for i, o in enumerate(opts):
-        ok, bad, either = POOLS[o]
+        if o in ALIASES_OF and draw(st.integers(0, 3)) == 0:
+            o = ALIASES_OF[o]
+        ok, bad, either = _pool(o)
         kw.append([o, draw(st.sampled_from(bad + either if i in bad_at else ok))])
     return kw
 
@@ -153,7 +171,7 @@ def _case(draw, tier):
             # look-alike history: the final call with some values swapped for other pool members
             kw = []
             for o, v in final:
-                ok, bad, either = POOLS[o]
+                ok, bad, either = _pool(o)
                 if draw(st.booleans()):
                     v = draw(st.sampled_from(ok + bad + either))
                 kw.append([o, v])
@@ -170,7 +188,7 @@ def strategy(tier):
 
 # ---------------------------------------------------------------- the model
 def _valid(opt, tok):
-    ok, bad, either = POOLS[opt]
+    ok, bad, either = _pool(opt)
     if tok in ok:
         return True
     if tok in bad:
@@ -265,8 +283,9 @@ def _child(case):
     created = []  # (kw, conf)
     seq = list(case['history']) + [case['final']]
     outcomes = []
-    for idx, kw in enumerate(seq):
-        tag, c, kwargs = _construct(objs, kw)
+    for idx, raw in enumerate(seq):
+        tag, c, kwargs = _construct(objs, raw)
+        kw = _canon(raw)
         outcomes.append(tag)
         m = _model_outcome(kw)
         opts = ','.join(sorted(o for o, v in kw if _valid(o, v) is not True)) or '-'
@@ -352,9 +371,9 @@ def _child(case):
 
 
 def _lookalike(case):
-    fin = dict(case['final'])
+    fin = dict(_canon(case['final']))
     for kw in case['history']:
-        for o, v in kw:
+        for o, v in _canon(kw):
             if o in fin and fin[o] != v:
                 return True
     return False
@@ -369,7 +388,7 @@ def run_case(case):
     # The fresh-process differential costs a second fork; it is run for every case whose final
     # outcome the validity model leaves open and for a deterministic third of the others (the
     # model itself already pins the fresh outcome of those).
-    if case['history'] and (_model_outcome(case['final']) is None or case['perm'] % 3 == 0):
+    if case['history'] and (_model_outcome(_canon(case['final'])) is None or case['perm'] % 3 == 0):
         b = isolate.call(_child, {'history': [], 'final': case['final'], 'perm': case['perm'],
                                   'env_color': case.get('env_color')}, timeout=60)
         evals += 1
@@ -403,6 +422,16 @@ def extra_engine(tier, seed, agg, safe_run_case):
         for tok in ok + bad + either:
             safe_run_case(mod, {'history': [], 'final': [[opt, tok]], 'perm': 0, 'env_color': None}, agg)
             n += 1
+        if opt in ALIASES_OF:
+            # the deprecated spelling of the option: every value alone, and every valid value after / before the new spelling
+            old = ALIASES_OF[opt]
+            for tok in [t for t in ok + bad + either if t != 'None']:
+                safe_run_case(mod, {'history': [], 'final': [[old, tok]], 'perm': 0, 'env_color': None}, agg)
+                n += 1
+            for tok in ok:
+                safe_run_case(mod, {'history': [[[opt, tok]]], 'final': [[old, tok]], 'perm': 0, 'env_color': None}, agg)
+                safe_run_case(mod, {'history': [[[old, tok]]], 'final': [[opt, tok]], 'perm': 0, 'env_color': None}, agg)
+                n += 2
         # every ordered pair of distinct valid values of one option, one right after the other (a memo that conflates two
         # valid configurations answers the second with the first)
         for a in ok:
